@@ -398,7 +398,11 @@ class Expander:
                 if mn is None or mn is at or cfg.can_reach(at, mn):
                     return None
         cs = [c for c in facts.collects(self.func) if c.kind == 'loop' and c.acc == name]
-        hdr = cfg.node_of(cs[0].node) if cs else None
+        if cs:
+            hdr = cfg.node_of(cs[0].node)
+        else:
+            ds = [d for d in self.flow.defs_of(name) if d.kind == 'assign']
+            hdr = ds[0].node if len(ds) == 1 else None
         if hdr is None or not cfg.dominates(hdr, at):
             return None
         self.expanded_paths.add(name)
